@@ -3,3 +3,6 @@ import WD.Model.Snapshot
 import WD.Spec.SnapshotSpec
 import WD.Proofs.Snapshot
 import WD.Props.C09
+import WD.Model.Events
+import WD.Generated.EventClasses
+import WD.Props.C15
